@@ -704,7 +704,10 @@ func canonRunStderr(o runOutcome) []string {
 		}
 		// positions are printed with the absolute file name: keep from the case directory on
 		if i := strings.Index(l, o.Scenario.Base+"/"); i >= 0 {
-			l = l[i:]
+			// only the directory part of that file name is dropped: whatever precedes the position (a time stamp, a prefix)
+			// is part of the diagnostic
+			j := strings.LastIndexAny(l[:i], " \t")
+			l = l[:j+1] + l[i:]
 		}
 		out = append(out, l)
 	}
